@@ -252,6 +252,54 @@ func c06(c *h.Ctx) {
 		}
 	}
 
+	// 1b. the TYPED decoders (`(*String).UnmarshalBinary` … — what the RTMP packet decoders call for a command name, a
+	// transaction id, a command object) given every marker byte: each accepts its own marker only; any other —
+	// supported elsewhere or not (a long string where a string is expected) — is an error, never read under the
+	// wrong layout and never mis-sized. When it accepts, the value and size are those of the generic decoder.
+	{
+		type typed struct {
+			name   string
+			marker int
+			mk     func() amf0.Amf0
+		}
+		tds := []typed{
+			{"String", 2, func() amf0.Amf0 { return amf0.NewString("") }},
+			{"Number", 0, func() amf0.Amf0 { return amf0.NewNumber(0) }},
+			{"Boolean", 1, func() amf0.Amf0 { return amf0.NewBoolean(false) }},
+			{"Null", 5, func() amf0.Amf0 { return amf0.NewNull() }},
+			{"Undefined", 6, func() amf0.Amf0 { return amf0.NewUndefined() }},
+			{"Object", 3, func() amf0.Amf0 { return amf0.NewObject() }},
+			{"EcmaArray", 8, func() amf0.Amf0 { return amf0.NewEcmaArray() }},
+			{"StrictArray", 10, func() amf0.Amf0 { return amf0.NewStrictArray() }},
+		}
+		ttails := [][]byte{{0, 0, 0, 5, 'h', 'e', 'l', 'l', 'o'}, {0, 5, 'h', 'e', 'l', 'l', 'o'}, {0, 0, 0, 0, 0, 0, 0, 0}, {1}, {0, 0, 9},
+			{0, 0, 0, 0, 0, 0, 9}, {0, 0, 0, 1, 0, 1, 'k', 5, 0, 0, 9}, {0, 1, 'k', 5, 0, 0, 9}}
+		for _, td := range tds {
+			for m := 0; m < 256; m++ {
+				for _, tail := range ttails {
+					bs := append([]byte{byte(m)}, tail...)
+					in := fmt.Sprintf("amf0.%s.UnmarshalBinary %s", td.name, h.Hex(bs))
+					v := td.mk()
+					class := h.Safe(func() string {
+						if err := v.UnmarshalBinary(bs); err != nil {
+							return "err"
+						}
+						return "ok"
+					})
+					c.Hold(class != "panic" && !strings.HasPrefix(class, "panic"), "no_panic", in, class, "ok|err")
+					if m != td.marker {
+						c.Hold(class == "err", "markers_total.typed_decoder_refuses_other_markers", in, class, "err")
+					} else if class == "ok" {
+						d := libDecode(bs)
+						same := d.class == "ok" && amfStr(d.val) == amfStr(v) && d.val.Size() == v.Size()
+						c.Hold(same, "markers_total.typed_equals_generic", in, fmt.Sprintf("%s size %d", amfStr(v), v.Size()), d.decLine(bs))
+					}
+					c.Case(fmt.Sprintf("typed/%s/own=%v/%s", td.name, m == td.marker, class), in, true)
+				}
+			}
+		}
+	}
+
 	// 2. the fixed strict-array witness of K1 and hand-written spec bytes (FFmpeg-style onMetaData message).
 	{
 		w := strictOf(num(0x3ff0000000000000))
